@@ -407,3 +407,29 @@ def is_slash_terminated(e):
                 and isinstance(t.args[0], ast.Constant) and t.args[0].value == "/" and U(t.func.value) == U(a) and plus_slash(b) and U(b.left) == U(a):
             return True
     return False
+
+
+def conditional_values(cfg, expr, at_node, depth=2):
+    """The alternatives an expression can denote at a node, each with the literals known where it is chosen:
+    a conditional expression splits on its test; a local is replaced by its reaching definitions (with the literals
+    dominating each definition). -> [(value_ast, {(text, polarity), ...}), ...]; an undefined/parameter name stays itself."""
+    out = []
+    if isinstance(expr, ast.IfExp):
+        for val, truth in ((expr.body, True), (expr.orelse, False)):
+            facts = {(t, p) for _, t, p in [(x[0], x[1], x[2]) for x in literals_of_test(expr.test, "T" if truth else "F")]}
+            for v, f in conditional_values(cfg, val, at_node, depth):
+                out.append((v, f | facts))
+        return out
+    if isinstance(expr, ast.Name) and depth > 0:
+        ds = [d for d in cfg.reaching_defs(expr.id, at_node) if d != cfg.entry]
+        if ds and cfg.entry not in cfg.reaching_defs(expr.id, at_node):
+            from .cfg import assigned_value
+            for d in ds:
+                v = assigned_value(cfg, d, expr.id)
+                if v is None:
+                    return [(expr, set())]
+                facts = {(t, p) for _, t, p, _ in dominating_literals(cfg, d)}
+                for vv, f in conditional_values(cfg, v, d, depth - 1):
+                    out.append((vv, f | facts))
+            return out
+    return [(expr, set())]
